@@ -3,13 +3,20 @@ import argparse
 import importlib
 import json
 import os
+import signal
 import sys
 import traceback
 
 from . import common
 
 
+def _term(signum, frame):
+    # `timeout` / a runner sent SIGTERM: unwind (kills running driver process groups in common._run), exit 2
+    raise SystemExit(2)
+
+
 def main():
+    signal.signal(signal.SIGTERM, _term)
     ap = argparse.ArgumentParser()
     ap.add_argument("prop")
     ap.add_argument("--tier", default=os.environ.get("VERIF_TIER", "quick"), choices=["quick", "thorough"])
@@ -20,6 +27,7 @@ def main():
         rp = json.load(open(a.replay))
         seed = int(rp.get("seed", seed))
         a.tier = rp.get("tier", a.tier)
+    os.environ["VERIF_TIER_RUNNING"] = a.tier
     mod = importlib.import_module("harness.props.%s" % a.prop.lower())
     run = common.Run(a.prop, a.tier, seed, level=getattr(mod, "LEVEL", "proof"))
     try:
